@@ -232,7 +232,8 @@ class SyncDrive(_BaseDrive):
                         'tb': traceback.format_exc()[-3000:],
                         'logger': 'thread'})
             th = threading.Thread(target=runner, daemon=True)
-            if getattr(target, '__name__', '') != '_thread':
+            if getattr(target, '__name__', '') not in (
+                    '_thread', '_emit_server_stats'):
                 # the pub/sub listener is a service thread: never joined
                 self.threads.append(th)
             th.start()
